@@ -17,8 +17,8 @@ CLAIMS = {
  "C02": ("property-based testing: proptest float-pattern generators (threshold lattice, specials, stratified exponents) + complete f32 enumeration (thorough) against the exact dyadic reference oracle; metamorphic from_f32(x)==from_f64(x as f64)",
          "Every generated or enumerated f32/f64 bit pattern is converted to the three posit types through from_f32/from_f64 and the From impls and compared bit-for-bit with the posit rounding of the float's exact value; every 9- and 17-bit rounding threshold is placed exactly (+-1 ulp) as f64; all 2^32 f32 patterns in the thorough tier (1/8 of them in quick).",
          "DESIGN.md section 6, C02"),
- "C03": ("property-based testing: complete enumeration (P8, P16; P32 in thorough) + proptest patterns; oracle = independent decoder value, round-trip identities",
-         "to_f64/to_f32 of every pattern compared with the exact value from an independent decoder; f64 and Display/FromStr round trips must return the original bits. Complete for P8/P16 and, in the thorough tier, for all 2^32 P32 patterns (float parts).",
+ "C03": ("property-based testing: complete enumeration (P8, P16 and all 2^32 P32 patterns in both tiers) + proptest patterns; oracle = independent decoder value, round-trip identities",
+         "to_f64/to_f32 of every pattern compared with the exact value from an independent decoder; f64 and Display/FromStr round trips must return the original bits. Complete for P8/P16 and for all 2^32 P32 patterns (float parts) in both tiers.",
          "DESIGN.md section 6, C03"),
  "C05": ("property-based testing: complete enumeration of all 2^24 P8 triples + proptest triple and tie-directed generators (cancellation-directed c) against the exact dyadic reference oracle",
          "mul_add, mul_sub and sub_product of every generated/enumerated triple compared bit-for-bit with the exact a*b+-c rounded once. P8 decided completely; P16/P32 by generation directed at cancellation, ties and extreme regimes.",
@@ -26,10 +26,10 @@ CLAIMS = {
  "C06": ("property-based testing by complete enumeration (all patterns of P8, P16 and P32 in both tiers) + proptest inputs around perfect squares and squared thresholds; oracle decides sqrt by exact comparison with t^2",
          "sqrt of every pattern compared with the posit rounding of the exact root. Complete for P8, P16 and all 2^32 P32 patterns in both tiers.",
          "DESIGN.md section 6, C06"),
- "C07": ("property-based testing: complete enumeration of narrow integer types and of P8/P16 (all 2^32 i32/u32 values and P32 patterns in thorough) + proptest int64 generator with threshold-directed values; exact oracle",
-         "from_<int> compared with the posit rounding of the integer's exact value; to_i32/u32/i64/u64 compared with round-half-even clamped to the type. Complete where the domain is <= 2^32 (thorough), generated for 64-bit integers.",
+ "C07": ("property-based testing: complete enumeration of narrow integer types, of all 2^32 i32/u32 values and of all P8/P16/P32 patterns (both tiers) + proptest int64 generator with threshold-directed values; exact oracle",
+         "from_<int> compared with the posit rounding of the integer's exact value; to_i32/u32/i64/u64 compared with round-half-even clamped to the type. Complete where the domain is <= 2^32 (both tiers), generated for 64-bit integers.",
          "DESIGN.md section 6, C07"),
- "C08": ("property-based testing: complete enumeration of P8/P16 sources and of every 9/17-bit threshold mapped into P32 (all 2^32 P32 sources in thorough) + proptest patterns; exact oracle; widening round-trip identity",
+ "C08": ("property-based testing: complete enumeration of P8/P16 sources and of every 9/17-bit threshold mapped into P32, and of all 2^32 P32 sources (both tiers) + proptest patterns; exact oracle; widening round-trip identity",
          "All six directed conversions through three spellings each compared with the posit rounding of the source value in the target format; widening exactness and the widen-narrow identity asserted.",
          "DESIGN.md section 6, C08"),
  "C04": ("stateful property-based testing: proptest-generated call histories (vec of steps + interpreter, tie-directed histories) against an exact dyadic model checked after every step; metamorphic order-independence; complete single-product enumeration for Q8",
